@@ -7,6 +7,7 @@ mod c06;
 mod c07;
 mod c08;
 mod c10;
+mod c11;
 mod c12;
 mod c13;
 mod c14;
@@ -90,6 +91,9 @@ fn main() {
         "C07" => c07::run(tier),
         "C08" => c08::run(tier),
         "C10" => c10::run(tier),
+        "C11" => c11::run(tier),
+        "worker" => c11::worker_main(),
+        "probe" => c11::probe_main(&args[2], args.get(3).and_then(|x| x.parse().ok())),
         "C12" => c12::run(tier),
         "C13" => c13::run(tier),
         "C14" => c14::run(tier),
